@@ -3,13 +3,23 @@
     model function by definition (Routes.v; tied to the code by the correspondence check); the
     theorems relate the remaining routes to it.  Structural equality of the REVERSE symbolic
     route with the forward one is not claimed: it is known finding KF-ORDER. *)
-From SM Require Import Spec.
-From SM.proofs Require Import Glue.
+From SM Require Import Spec SpecRoutes.
+From SM.proofs Require Import Glue RouteObjects.
 
 Theorem C06_located : Spec.C06_located.
 Proof. exact located_agrees. Qed.
 Theorem C06_early : Spec.C06_early.
 Proof. exact early_agrees. Qed.
 
+(* "Differential(e).component(v) equals Partial(e, v) and Differential(e).at(p) equals
+   LocatedDifferential(e, p)": the object model of RouteAst.v (tied to the four classes by
+   TieRoute.v) under the equality of Objects.v (tied to the __eq__ bodies by TieObj.v) *)
+Theorem C06_component_equals_partial : SpecRoutes.C06_component_equals_partial.
+Proof. exact component_equals_partial_R. Qed.
+Theorem C06_at_equals_located : SpecRoutes.C06_at_equals_located.
+Proof. exact at_equals_located_R. Qed.
+
 Print Assumptions C06_located.
 Print Assumptions C06_early.
+Print Assumptions C06_component_equals_partial.
+Print Assumptions C06_at_equals_located.
